@@ -549,6 +549,57 @@ def routine_defaults_and_dispatch(ctx, rule='C19-R8'):
 
 
 # ---------------------------------------------------------------------------------------------- C19-R9 / C05-R10
+_NMAX = ('call', ('g', 'numpy.nanmax'), (V,), ())
+_NMIN = ('call', ('g', 'numpy.nanmin'), (V,), ())
+
+
+def _lin(t):
+    t = T.peel(t) if tag(t) not in ('bin', 'c', 'un') else t
+    if tag(t) == 'bin' and t[1] == '/' and T.is_const(t[3]) and isinstance(t[3][1], (int, float)) and t[3][1] != 0:
+        l, c = _lin(t[2])
+        return {k: v / t[3][1] for k, v in l.items()}, c / t[3][1]
+    if tag(t) == 'bin' and t[1] in ('+', '-'):
+        la, ca = _lin(t[2])
+        lb, cb = _lin(t[3])
+        s = 1 if t[1] == '+' else -1
+        out = dict(la)
+        for k, v in lb.items():
+            out[k] = out.get(k, 0) + s * v
+        return {k: v for k, v in out.items() if abs(v) > 1e-12}, ca + s * cb
+    if tag(t) == 'bin' and t[1] == '*':
+        for a, b in ((t[2], t[3]), (t[3], t[2])):
+            if T.is_const(a) and isinstance(a[1], (int, float)):
+                l, c = _lin(b)
+                return {k: v * a[1] for k, v in l.items()}, c * a[1]
+    if tag(t) == 'un' and t[1] == '-':
+        l, c = _lin(t[2])
+        return {k: -v for k, v in l.items()}, -c
+    if T.is_const(t) and isinstance(t[1], (int, float)) and not isinstance(t[1], bool):
+        return {}, t[1]
+    return {t: 1}, 0
+
+def _sub(a, b):
+    out = dict(a[0])
+    for k, v in b[0].items():
+        out[k] = out.get(k, 0) - v
+    return {k: v for k, v in out.items() if abs(v) > 1e-12}, a[1] - b[1]
+
+def _facts_of(guard):
+    """[(linear form, strict?)] with form > 0 (strict) or >= 0 known to hold."""
+    out = [(({_NMAX: 1, _NMIN: -1}, 0), False)]           # the largest value is not below the smallest
+    for l in guard_literals(guard):
+        neg = tag(l) == 'not'
+        c = l[1] if neg else l
+        if tag(c) != 'cmp' or c[1] not in ('lt', 'le'):
+            continue
+        a, b = _lin(c[2]), _lin(c[3])
+        if not neg:
+            out.append((_sub(b, a), c[1] == 'lt'))         # a < b  /  a <= b
+        else:
+            out.append((_sub(a, b), c[1] == 'le'))         # not a < b: a >= b;  not a <= b: a > b
+    return out
+
+
 def positive_span(ctx, rule='C19-R9'):
     """The pair (min_val, max_val) that minrange2minmax derives for the min-max scaling spans a positive range on every
     path: max_val - min_val, as a linear form in nanmax(vals), nanmin(vals) and min_range, is positive given the guard of
@@ -562,51 +613,7 @@ def positive_span(ctx, rule='C19-R9'):
     NMAX = ('call', ('g', 'numpy.nanmax'), (V,), ())
     NMIN = ('call', ('g', 'numpy.nanmin'), (V,), ())
 
-    def lin(t):
-        t = T.peel(t) if tag(t) not in ('bin', 'c', 'un') else t
-        if tag(t) == 'bin' and t[1] == '/' and T.is_const(t[3]) and isinstance(t[3][1], (int, float)) and t[3][1] != 0:
-            l, c = lin(t[2])
-            return {k: v / t[3][1] for k, v in l.items()}, c / t[3][1]
-        if tag(t) == 'bin' and t[1] in ('+', '-'):
-            la, ca = lin(t[2])
-            lb, cb = lin(t[3])
-            s = 1 if t[1] == '+' else -1
-            out = dict(la)
-            for k, v in lb.items():
-                out[k] = out.get(k, 0) + s * v
-            return {k: v for k, v in out.items() if abs(v) > 1e-12}, ca + s * cb
-        if tag(t) == 'bin' and t[1] == '*':
-            for a, b in ((t[2], t[3]), (t[3], t[2])):
-                if T.is_const(a) and isinstance(a[1], (int, float)):
-                    l, c = lin(b)
-                    return {k: v * a[1] for k, v in l.items()}, c * a[1]
-        if tag(t) == 'un' and t[1] == '-':
-            l, c = lin(t[2])
-            return {k: -v for k, v in l.items()}, -c
-        if T.is_const(t) and isinstance(t[1], (int, float)) and not isinstance(t[1], bool):
-            return {}, t[1]
-        return {t: 1}, 0
-
-    def sub(a, b):
-        out = dict(a[0])
-        for k, v in b[0].items():
-            out[k] = out.get(k, 0) - v
-        return {k: v for k, v in out.items() if abs(v) > 1e-12}, a[1] - b[1]
-
-    def facts_of(guard):
-        """[(linear form, strict?)] with form > 0 (strict) or >= 0 known to hold."""
-        out = [(({NMAX: 1, NMIN: -1}, 0), False)]           # the largest value is not below the smallest
-        for l in guard_literals(guard):
-            neg = tag(l) == 'not'
-            c = l[1] if neg else l
-            if tag(c) != 'cmp' or c[1] not in ('lt', 'le'):
-                continue
-            a, b = lin(c[2]), lin(c[3])
-            if not neg:
-                out.append((sub(b, a), c[1] == 'lt'))         # a < b  /  a <= b
-            else:
-                out.append((sub(a, b), c[1] == 'le'))         # not a < b: a >= b;  not a <= b: a > b
-        return out
+    lin, sub, facts_of = _lin, _sub, _facts_of
 
     def positive(d, facts):
         if not d[0]:
@@ -657,4 +664,113 @@ def positive_span(ctx, rule='C19-R9'):
                               'and a minimum range of 0 the span is 0, the min-max scaling is 0 / 0, every height becomes NaN '
                               'and find_slices takes all hits for non-detections (an overcast deck reported as NCD)',
                               instance='minrange2minmax: the derived (min_val, max_val) span a positive range')
+    ctx.floor(rule, 'return alternatives of minrange2minmax', n, 2)
+
+
+def stateless(ctx, rule='C19-R9'):
+    """A scaling is a function of its arguments: nothing computed in one call (edges, ranges, offsets) is kept in a
+    module-level object, a memoising decorator or a default argument for the next call - `undo` with other
+    parameters than the `do` before it would use the stale values."""
+    from sa.rules.confinement import module_state
+    fx = effects(ctx)
+    entries = sorted(q for q, f in ctx.project.funcs.items()
+                     if (f.module.name == MOD or q.rsplit('.', 1)[0] == MOD) and '<locals>' not in q)
+    scope = fx.reachable([q for q in entries if q in fx.summ])
+    ctx.floor(rule, 'scaling functions and what they call', len(scope), 5)
+    module_state(ctx, rule, scope=scope)
+
+
+def _solve(rows, rhs):
+    """Unique solution of the (possibly over-determined) linear system rows . x = rhs, or None."""
+    from fractions import Fraction as Fr
+    n = len(rows[0]) if rows else 0
+    m = [[Fr(v).limit_denominator(10 ** 9) for v in r] + [Fr(b).limit_denominator(10 ** 9)] for r, b in zip(rows, rhs)]
+    piv = 0
+    for col in range(n):
+        r = next((i for i in range(piv, len(m)) if m[i][col] != 0), None)
+        if r is None:
+            return None                         # a multiplier left free: not looked for
+        m[piv], m[r] = m[r], m[piv]
+        m[piv] = [v / m[piv][col] for v in m[piv]]
+        for i in range(len(m)):
+            if i != piv and m[i][col] != 0:
+                m[i] = [a - m[i][col] * b for a, b in zip(m[i], m[piv])]
+        piv += 1
+    if any(r[-1] != 0 for r in m[piv:]):
+        return None
+    return [m[i][-1] for i in range(n)]
+
+
+def _entails_nonneg(d, facts) -> bool:
+    """Is d >= 0 a non-negative combination of at most three of the facts (each a linear form known to be >= 0 or > 0)
+    plus a non-negative constant (a Farkas certificate, found by solving for the multipliers)?  Also true when the
+    facts contradict each other (the alternative cannot happen)."""
+    from itertools import combinations
+
+    def certificate(target, need_strict_for_zero):
+        names = sorted({k for k in target[0]} | {k for f, _ in facts for k in f[0]}, key=str)
+        for size in (0, 1, 2, 3):
+            for sub_ in combinations(range(len(facts)), size):
+                fs = [facts[i] for i in sub_]
+                if size == 0:
+                    if not target[0] and (target[1] > 0 or (target[1] >= 0 and not need_strict_for_zero)):
+                        return True
+                    continue
+                rows = [[f[0].get(k, 0) for f, _ in fs] for k in names]
+                sol = _solve(rows, [target[0].get(k, 0) for k in names])
+                if sol is None or any(x < 0 for x in sol):
+                    continue
+                const = target[1] - sum(float(x) * f[1] for x, (f, _) in zip(sol, fs))
+                strict = any(x > 0 and st for x, (_, st) in zip(sol, fs))
+                if const > 1e-12 or (abs(const) <= 1e-12 and (strict or not need_strict_for_zero)):
+                    return True
+        return False
+    if certificate(d, False):
+        return True
+    # contradiction: 0 = (combination of facts) + positive constant, i.e. the target -tiny is reachable
+    return certificate(({}, 0.0), True)
+
+
+def interval_contains_data(ctx, rule='C19-R10'):
+    """The pair (min_val, max_val) derived for the min-max scaling encloses the data on every path: nanmin - min_val and
+    max_val - nanmax, as linear forms in nanmax, nanmin and min_range, are non-negative given the guard of the return.
+    Otherwise "min-max" scaled values leave [0, 1] (data wider than the interval they are scaled into)."""
+    fx = effects(ctx)
+    p = ctx.project
+    q = f'{MOD}.minrange2minmax'
+    f = p.func(q, rule)
+    ctx.saw(f)
+    from itertools import product as _product
+    rets = [e for e in split_alternatives(fx.deep_events(q)) if e.kind == 'return' and not e.ctx]
+    n = 0
+    for e in rets:
+        v = e.value
+        if tag(v) != 'tuple' or len(v[1]) != 2:
+            continue            # reported by the positive-span rule
+        phis = []
+        for x in T.walk(v):
+            if tag(x) == 'phi' and x not in phis:
+                phis.append(x)
+        if len(phis) > 3:
+            raise AnalysisError(rule, 'too many selections in the value returned by minrange2minmax')
+        for choice in _product(*[ph[1] for ph in phis]):
+            mapping = {ph: alt[1] for ph, alt in zip(phis, choice)}
+            vv = T.subst(v, mapping) if mapping else v
+            if tag(vv) != 'tuple' or len(vv[1]) != 2:
+                continue
+            lo, hi = vv[1]
+            g = T.mk_and([e.guard] + [alt[0] for alt in choice])
+            if g == T.FALSE:
+                continue
+            for alt in (T.dnf(g) or [g]):
+                n += 1
+                facts = _facts_of(alt)
+                below = _sub(({_NMIN: 1}, 0), _lin(lo))
+                above = _sub(_lin(hi), ({_NMAX: 1}, 0))
+                ok = _entails_nonneg(below, facts) and _entails_nonneg(above, facts)
+                ctx.check(ok, rule, q, e.node, e.loc(),
+                          f'under {T.show(alt, maxlen=160)} minrange2minmax returns ({T.show(lo, maxlen=60)}, '
+                          f'{T.show(hi, maxlen=60)}): nothing there makes this interval enclose [nanmin, nanmax] - data wider '
+                          'than the interval are scaled outside [0, 1]',
+                          instance='minrange2minmax: the derived (min_val, max_val) enclose the data')
     ctx.floor(rule, 'return alternatives of minrange2minmax', n, 2)
